@@ -1,3 +1,55 @@
-From AV Require Import Spec.C15.
-Theorem C15_placeholder : True. Proof. exact I. Qed.
-Print Assumptions C15_placeholder.
+(* C15 — A revision history with a cycle is always rejected, an acyclic one never.
+   Statement-only file: every theorem is closed by `exact` of a lemma in Proofs/CycleProof.v. *)
+From AV Require Import Spec.C15 Proofs.CycleProof.
+
+(* the model of RevisionMap._revision_map reports a cycle error exactly when the
+   down_revision + depends_on links contain a directed cycle — for every graph, any size *)
+Theorem C15_iff : forall G, wf_refs G -> (is_cycle_err (load G) = true <-> cyclic (all_down G)).
+Proof. exact load_iff. Qed.
+Print Assumptions C15_iff.
+
+(* it never hangs and never fails in another way: no fuel exhaustion on any graph, cyclic or not *)
+Theorem C15_total : forall G, wf_refs G -> load G <> LoadErr EFuel /\ load G <> LoadErr EOther.
+Proof. exact load_total. Qed.
+Print Assumptions C15_total.
+
+(* for an accepted history heads/bases/_real_heads/_real_bases are the graph-theoretic ones *)
+Theorem C15_heads_bases : forall G l, load G = Loaded l ->
+    (forall x, In x (l_heads l) <-> In x (ids G) /\ no_child r_down G x) /\
+    (forall x, In x (l_real_heads l) <-> In x (ids G) /\ no_child all_down_r G x) /\
+    (forall x, In x (l_bases l) <-> exists r, In r G /\ r_id r = x /\ r_down r = []) /\
+    (forall x, In x (l_real_bases l) <-> exists r, In r G /\ r_id r = x /\ r_down r = [] /\ r_deps r = []).
+Proof. exact load_heads_bases. Qed.
+Print Assumptions C15_heads_bases.
+
+(* the full property for the model *)
+Theorem C15_model_holds : forall G, wf_refs G -> C15_holds G (load G).
+Proof. exact model_holds. Qed.
+Print Assumptions C15_model_holds.
+
+(* the boolean decider applied to the implementation's output implies the Prop-level property *)
+Theorem C15_decider_sound : forall G out, wf_refs G -> check_C15 G out = true -> C15_holds G out.
+Proof. exact decider_sound. Qed.
+Print Assumptions C15_decider_sound.
+
+(* the elimination loop alone decides acyclicity of any parent function closed in the graph *)
+Theorem C15_kahn_iff : forall f G, NoDup (ids G) -> (forall r, In r G -> incl (f r) (ids G)) ->
+  (kahn f G = Some [] <-> ~ cyclic (of_rev f G)).
+Proof. exact kahn_iff. Qed.
+Print Assumptions C15_kahn_iff.
+
+(* every ancestor/descendant traversal terminates within its fuel on every history, cyclic or not *)
+Theorem C15_traversal_total : forall G f targets, wf_refs G -> (f = r_down \/ f = all_down_r) ->
+  reach_set (of_rev f G) G targets <> None /\ reach_set (children_by f G) G targets <> None.
+Proof. exact traversal_total. Qed.
+Print Assumptions C15_traversal_total.
+
+(* non-vacuity: a concrete cyclic history that the reachability checks alone accept
+   (a:None, b:c, c:d, d:(a,c) — the design-time witness), and a concrete acyclic one *)
+Definition witness_cyclic : graph := [mkRev 0 [] [] [] []; mkRev 1 [2] [] [] []; mkRev 2 [3] [] [] []; mkRev 3 [0;2] [] [] []]%N.
+Example C15_nonvacuous_cyclic : wf_refsb witness_cyclic = true /\ load witness_cyclic = LoadErr ECycle
+  /\ reach_check witness_cyclic (down witness_cyclic) (nextrev witness_cyclic) (heads_of witness_cyclic) (bases_of witness_cyclic) ECycle = None.
+Proof. vm_compute. auto. Qed.
+Definition witness_acyclic : graph := [mkRev 0 [] [] [] []; mkRev 1 [0] [] [] []; mkRev 2 [0] [1] [] []; mkRev 3 [1;2] [] [] []]%N.
+Example C15_nonvacuous_acyclic : wf_refsb witness_acyclic = true /\ load witness_acyclic = Loaded (mkLoaded [3] [0] [3] [0])%N.
+Proof. vm_compute. auto. Qed.
